@@ -41,6 +41,7 @@ pub struct SymbolMap {
     name_to_def: HashMap<EcoString, RecordId>,
     name_to_multiclass: HashMap<EcoString, MulticlassId>,
     name_to_defset: HashMap<EcoString, DefsetId>,
+    name_to_defm: HashMap<EcoString, DefmId>,
     file_to_symbol_list: HashMap<FileId, Vec<SymbolId>>,
     pos_to_symbol_map: HashMap<FileId, IntervalMap<TextSize, SymbolId>>,
 }
@@ -140,6 +141,10 @@ impl SymbolMap {
 
     pub fn find_defset(&self, name: &EcoString) -> Option<DefsetId> {
         self.name_to_defset.get(name).copied()
+    }
+
+    pub fn find_defm(&self, name: &EcoString) -> Option<DefmId> {
+        self.name_to_defm.get(name).copied()
     }
 
     pub fn defm(&self, defm_id: DefmId) -> &Defm {
@@ -303,8 +308,10 @@ impl SymbolMap {
     }
 
     pub fn add_defm(&mut self, defm: Defm, is_global: bool) -> DefmId {
+        let name = defm.name.clone();
         let define_loc = defm.define_loc;
         let id = self.defm_list.alloc(defm);
+        self.name_to_defm.insert(name, id);
         if is_global {
             self.file_to_symbol_list
                 .entry(define_loc.file)
